@@ -49,6 +49,8 @@ __all__ = [
 # stdlib imports
 import logging
 import datetime
+import os
+import tempfile
 import http.cookiejar
 import uuid
 import xml.etree.ElementTree as ET
@@ -536,10 +538,24 @@ class OFXClient:
             dtprofup_server = proftrnrs.profrs.dtprofup
             assert dtprofup is None or dtprofup <= dtprofup_server
 
-            # Cache the updated PROFRS sent by the server
+            # Cache the updated PROFRS sent by the server.
+            # Write to a temporary file in the same directory and move it into place
+            # atomically, so that a crash or a concurrent request_profile() (cf.
+            # ofxget.scan_profile()) can never leave a truncated or mixed cache file.
             response.seek(0)
-            with open(persistpath, "wb") as f:
-                f.write(response.read())
+            fd, tmppath = tempfile.mkstemp(
+                dir=persistdir, prefix=filename + ".", suffix=".tmp"
+            )
+            try:
+                with os.fdopen(fd, "wb") as f:
+                    f.write(response.read())
+                os.replace(tmppath, persistpath)
+            except BaseException:
+                try:
+                    os.unlink(tmppath)
+                except OSError:
+                    pass
+                raise
 
         # Rewind PROFRS so it can be returned cleanly after having been parsed.
         response.seek(0)
